@@ -17,7 +17,15 @@ def face_grid(rng, N, nfaces, table, stagger=False, third=False, nextra=0):
     if third:
         axes.append({"name": "a3", "n": rng.randint(2, 3), "pos": [["center", "d7"], ["left", "d8"]]})
     extra = [[f"d{10 + k}", rng.randint(1, 2)] for k in range(nextra)]
-    return {"axes": axes, "extra": extra, "faces": {"dim": "d9", "n": nfaces, "axes": ["a1", "a2"], "table": table}}
+    fcs = {"dim": "d9", "n": nfaces, "axes": ["a1", "a2"], "table": table}
+    # spelling of the same table: insertion order of faces / axes in the dictionaries, flags as numpy booleans
+    if rng.random() < 0.5:
+        order = list(range(len(table)))
+        rng.shuffle(order)
+        fcs["order"] = order
+    if rng.random() < 0.3:
+        fcs["npbool"] = True
+    return {"axes": axes, "extra": extra, "faces": fcs}
 
 
 def rand_table(rng, N):
